@@ -492,7 +492,12 @@ class Ref:
         if k == "cmp":
             a = self.ev(c[2], store)
             b = self.ev(c[3], store)
-            if not (a.fits and b.fits):
+            # C02: operands that are compared as they are (places and
+            # constants) are scaled at most once (integer -> fixed); the
+            # x 10^10 guard is only needed below arithmetic nodes
+            plain = self.scale_guard and c[2][0] in "pcf" \
+                and c[3][0] in "pcf" and (a.fixed or b.fixed)
+            if not plain and not (a.fits and b.fits):
                 raise Unchecked("compared value outside the width")
             res = set()
             signed = a.signed or b.signed
@@ -500,8 +505,14 @@ class Ref:
                 for y in b.vals:
                     fx = Fraction(x, FB) if a.fixed else Fraction(x)
                     fy = Fraction(y, FB) if b.fixed else Fraction(y)
-                    if not (self.fit_cmp(fx, signed)
-                            and self.fit_cmp(fy, signed)):
+                    if plain:
+                        lim = 1 << (self.W - 1)
+                        if not (-lim <= fx * FB < lim
+                                and -lim <= fy * FB < lim):
+                            raise Unchecked("scaled operand outside the "
+                                            "width")
+                    elif not (self.fit_cmp(fx, signed)
+                              and self.fit_cmp(fy, signed)):
                         raise Unchecked("compared value outside the width")
                     res.add(bool(CMPS[c[1]](fx, fy)))
             if len(res) != 1:
@@ -515,7 +526,10 @@ class Ref:
             return not self.truth(c[1], store)
         if k == "truth":
             a = self.ev(c[1], store)
-            if not a.fits:
+            plain = self.scale_guard and c[1][0] == "p" and a.fixed and \
+                all(-(1 << (self.W - 1)) <= v < (1 << (self.W - 1))
+                    for v in a.vals)
+            if not a.fits and not plain:
                 raise Unchecked("tested value outside the width")
             res = {v != 0 for v in a.vals}
             if len(res) != 1:
